@@ -1511,7 +1511,7 @@ class TT():
                     except:
                         raise ShapeMismatch('Reshaping error: check if the dimensions care powers of the desired mode size:\r\ncore size '+str(
                             list(core.shape))+' cannot be reshaped to '+str(Nnew))
-                    cores, _ = to_tt(core, Nnew, eps, rmax, is_sparse=False)
+                    cores, _ = to_tt(core, Nnew, 0.0, sys.maxsize, is_sparse=False)
                     cores_new.append(tn.reshape(
                         cores[0], [-1, mode_size, cores[0].shape[-1]]))
                     cores_new += cores[1:-1]
@@ -1519,7 +1519,7 @@ class TT():
                         cores[-1], [cores[-1].shape[0], mode_size, -1]))
                 else:
                     cores_new.append(core)
-            result = TT(cores_new)
+            result = TT(cores_new).round(eps, rmax)
 
         return result
 
